@@ -286,10 +286,16 @@ public:
 	{
 		_thread = 0;
 		_threadFinished = false;
-		*this = start(f, this);
+		launch(f, this);
 	}
 	template<class Func>
 	static Thread start(const Func& f, Thread* t)
+	{
+		launch(f, t);
+		return *t;
+	}
+	template<class Func>
+	static void launch(const Func& f, Thread* t)
 	{
 		Context<Func> s = { f, t, false, 0, 0, 0 };
 		t->run((Function_)Thread::beginf<Func>, (void*)&s);
@@ -298,7 +304,6 @@ public:
 		ASL_VERIF_FLAG_READ_END();
 		ASL_VERIF_ACQUIRE(&s);
 		ASL_VERIF_POINT(ASL_VP_THREAD_HANDOVER_DONE, t);
-		return *t;
 	}
 	/**
 	Emulates an OpenMP *parallel for* by running function `f` several times in parallel. Function `f` must
